@@ -15,7 +15,8 @@ Inductive case :=
 | CRandom (obs : list Z)
 | CConst (id obs : Z)                                    (* 15.8.1 value properties *)
 | CIsNum (which : Z) (args : list jv) (obs : Z)          (* 0 isNaN, 1 isFinite; obs 0/1 *)
-| CStr (fns : list Z) (input : list Z) (obs : Z * list Z).
+| CStr (fns : list Z) (input : list Z) (obs : Z * list Z)
+| CThrow (fn : Z) (vals : list Z) (k kind : Z) (obs : Z * Z).
   (* fns applied left to right: 0 encodeURI 1 encodeURIComponent 2 decodeURI
      3 decodeURIComponent 4 escape 5 unescape; obs = (error class, result units) *)
 
@@ -64,6 +65,22 @@ Fixpoint chain_class (fns : list Z) (l : list Z) : Z :=
       end
   end.
 
+(* CThrow: fn (Math id, or 100 isNaN 101 isFinite 102 parseInt 103 parseFloat 104 escape
+   105 unescape 106 encodeURI 107 encodeURIComponent 108 decodeURI 109 decodeURIComponent)
+   is called with |vals| arguments; argument k is an object whose conversion throws
+   (kind), the others log their conversion and yield vals[i].  obs = (error class, number
+   of logged conversions).  9.1 / 8.12.8: ToNumber tries valueOf then toString, ToString
+   toString then valueOf; the abrupt completion propagates, conversions run left to right.
+   kinds: 0 toString throws RangeError; 1 Object.create(null); 2 valueOf returns an object,
+   toString throws RangeError; 3 both return objects (TypeError); 4 valueOf throws
+   RangeError, toString throws EvalError *)
+Definition string_hint (fn k : Z) : bool := (103 <=? fn) || ((fn =? 102) && (k =? 0)).
+Definition thrown_class (fn k kind : Z) : Z :=
+  if kind =? 0 then 3 else if kind =? 1 then 6 else if kind =? 2 then 3 else if kind =? 3 then 6
+  else if string_hint fn k then 2 else 3.
+Definition throw_expect (fn k kind conv : Z) : Z * Z :=
+  if k <? conv then (thrown_class fn k kind, k) else (0, conv).
+
 Definition verdict (c : case) : Z * Z :=
   match c with
   | CMath fn args obs =>
@@ -102,4 +119,6 @@ Definition verdict (c : case) : Z * Z :=
       end
   | CStr fns input obs =>
       judge res_eqb obs (chain apply_model fns input) (chain apply_spec fns input) (chain_class fns input)
+  | CThrow fn vals k kind obs =>
+      judge zz_eqb obs (throw_expect fn k kind (conv_model fn vals)) (throw_expect fn k kind (conv_spec fn vals)) 10
   end.
